@@ -143,7 +143,7 @@ def race_runs(ck, drv, tier):
     """free-running executions built to make the threads meet in proc_init / proc_fini; the recorded
     per-call outcomes are validated by RtProcFree.tla: TLC must find an interleaving of RtProc that
     explains them (e.g. two successful proc_fini calls have no explanation)."""
-    reps = 60 if tier == "quick" else 1500
+    reps = 300 if tier == "quick" else 3000
     jobs = [(k, pl) for pl in RACE_PLANS for k in range(reps)]
     res = core.pmap(lambda j: free_run(drv, {"progs": j[1]}, {"OVNI_TMPDIR": "1"}, want_outs=True), jobs, workers=4)
     recs = []
@@ -201,7 +201,7 @@ def main(pid, tier):
     if not rn.violated:
         raise core.MachineryError("negative configuration RtProc_Neg no longer fails")
     ck.phase("tlc")
-    n = 1200 if tier == "quick" else 20000
+    n = 6000 if tier == "quick" else 40000
     g = core.tlc("RtProcGen", "RtProcGen.cfg", workers=4, simulate=max(1, n // 4), depth=80,
                  seed_=core.seed(), timeout=1200)
     plans = [o for tg, o in g.lines if tg == "TR"]
@@ -254,7 +254,7 @@ def main(pid, tier):
         rng = random.Random(core.seed())
         sel = [p for p in plans if sum(1 for pr in p["progs"] if "thread_init" in pr) >= 2]
         rng.shuffle(sel)
-        sel = sel[:(150 if tier == "quick" else 3000)]
+        sel = sel[:(500 if tier == "quick" else 4000)]
         # every other run relocates the streams through OVNI_TMPDIR (threads then copy files in thread_free)
         fr = core.pmap(lambda kp: free_run(tdrv, kp[1], {"OVNI_TMPDIR": "1"} if kp[0] % 2 else None),
                        list(enumerate(sel)), workers=8)
